@@ -266,6 +266,36 @@ PROBE_CMD(grid_vol) {
     out.end_arr();
 }
 
+// {deck, actnum:[...], route} -> index observations of a grid whose activity was set through
+// another public route: "ctor" EclipseGrid(deck, actnum*), "reset" resetACTNUM(vector) after the
+// volume cache was filled, "copy" EclipseGrid(src, actnum), "reset_all" resetACTNUM()
+PROBE_CMD(grid_actnum) {
+    const auto deck = parse(jstr(req, "deck"));
+    const std::vector<int> actnum = jints(jget(req, "actnum"));
+    const std::string route = jstr(req, "route");
+    out.key("grid").obj();
+    if (route == "ctor") {
+        Opm::EclipseGrid grid(deck, actnum.data());
+        dump_grid(out, grid, false, false);
+    } else if (route == "reset") {
+        Opm::EclipseGrid grid(deck);
+        (void)grid.activeVolume();
+        grid.resetACTNUM(actnum);
+        dump_grid(out, grid, false, false);
+    } else if (route == "copy") {
+        Opm::EclipseGrid src(deck);
+        (void)src.activeVolume();
+        Opm::EclipseGrid grid(src, actnum);
+        dump_grid(out, grid, false, false);
+    } else if (route == "reset_all") {
+        Opm::EclipseGrid grid(deck);
+        (void)grid.activeVolume();
+        grid.resetACTNUM();
+        dump_grid(out, grid, false, false);
+    } else throw BadRequest("route");
+    out.end_obj();
+}
+
 // {path} -> EclipseGrid(filename) observations + what the EGrid reader and the raw file say
 PROBE_CMD(grid_load) {
     const std::string path = jstr(req, "path");
